@@ -68,6 +68,10 @@ class RoundRobinImputer:
         return out
 
 
+def rnd_strategy(seed):
+    return "joint" if seed % 2 else "product"
+
+
 def make_storage(spec, clock, count_get=False):
     from ixai.storage import (UniformReservoirStorage, GeometricReservoirStorage, IntervalStorage,
                               SequenceStorage, BatchStorage)
@@ -114,9 +118,11 @@ def gen_cfg(rnd, explainer, exact, allow_discontinuous=False):
     cfg = {
         "explainer": explainer, "exact": exact, "dyn": dyn, "alpha": alpha,
         "d": d, "n_inner": rnd.choice([1, 1, 2, 3, 5]) if exact else rnd.choice([1, 1, 2, 3, 4]),
-        "names": rnd.choice(["str", "str", "int", "float"]),
+        "names": rnd.choice(["str", "str", "str", "int", "int", "float", "float", "mixed", "spelled", "odd"]),
         "storage": gen_storage_spec(rnd),
-        "imputer": rnd.choice(["joint", "joint", "product", "default", "custom", "library-default"]),
+        "imputer": rnd.choice(["joint", "joint", "product", "default", "custom", "library-default", "background"]),
+        # 'background': a MarginalImputer bound to a data set the USER maintains, not to the explainer's own storage
+        "frozen_first": rnd.choice([0, 0, 0, 1, 2, 6]),   # first calls made with update_storage=False (imputers that do not need the storage)
         "model": rnd.choice(["scalar", "scalar", "multi", "grow", "ignore", "constant", "linear", "positional", "positional", "antisym"]),
         "extras": rnd.choice([0, 0, 1, 2]),          # features present in the data but not explained (the model reads them)
         "warm_start": rnd.choice([0, 0, 0, 2]),      # observations put into the storage via update_storage() before the first call
@@ -128,7 +134,7 @@ def gen_cfg(rnd, explainer, exact, allow_discontinuous=False):
         "shuffle_keys": rnd.random() < 0.3,          # observations list their keys in varying order (key-based models only)
         "keyword_call": rnd.random() < 0.3,          # explain_one(x_i=..., y_i=...) instead of positional arguments
         "names_as_tuple": False,
-        "out_type": "plain" if exact else rnd.choice(["plain", "plain", "np64", "int", "np0d", "u8-loss", "arr-loss"]),   # NumPy scalars as model outputs / loss values
+        "out_type": "plain" if exact else rnd.choice(["plain", "plain", "np64", "int", "np0d", "u8-loss", "arr-loss", "npbool", "pybool"]),   # NumPy scalars as model outputs / loss values
         "label_keys": rnd.choice(["int", "int", "str"]),                                     # keys of multi-label outputs
         "x_type": rnd.choice(["dict", "dict", "OrderedDict", "subclass", "Counter"]),                   # observations as dict subclasses
         "memo_model": rnd.random() < 0.25,
@@ -147,6 +153,8 @@ def gen_cfg(rnd, explainer, exact, allow_discontinuous=False):
         cfg["extras"] = 0
     if cfg["model"] == "positional":
         cfg["shuffle_keys"] = False
+    if cfg["model"] == "antisym" and cfg["out_type"] in ("npbool", "pybool"):
+        cfg["out_type"] = "plain"       # (the harness model negates its value: not defined for booleans)
     if cfg["out_type"] == "u8-loss" and explainer != "pfi":
         cfg["out_type"] = "plain"       # (SAGE subtracts losses from each other: unsigned modular arithmetic is not a real-valued loss)
     if cfg["model"] in ("multi", "grow") and cfg["loss"] in ("sq", "abs") and not exact:
@@ -192,6 +200,13 @@ class Scenario:
             real = DefaultImputer(self.model, dict(self.defaults))
         elif imp == "custom":
             real = RoundRobinImputer(self.model, self.storage)
+        elif imp == "background":
+            from ixai.storage import BatchStorage
+            self.background = BatchStorage(store_targets=False)
+            allf = list(self.names) + [f"extra{j}" for j in range(cfg.get("extras", 0))]
+            for r in range(4):        # values disjoint from the stream's (the rows are still identified by their values)
+                self.background.update({n: 5000000 + 1000 * r + j for j, n in enumerate(allf)})
+            real = MarginalImputer(self.model, rnd_strategy(seed), self.background)
         else:
             real = None
         self.real_imputer = real
@@ -232,8 +247,11 @@ class Scenario:
         return x, y
 
     def call_kwargs(self):
-        """Per-call variations: n_inner override, update_storage=False (never on the first call)."""
+        """Per-call variations: n_inner override, update_storage=False (on the first calls only with imputers that do not
+        read the explainer's own storage)."""
         kw = {}
+        if self.t < self.cfg.get("frozen_first", 0) and self.cfg["imputer"] in ("default", "background"):
+            return {"update_storage": False}
         if self.cfg.get("vary_calls") and self.t > 0:
             r = self.rnd.random()
             if r < 0.2:
